@@ -67,7 +67,12 @@ Inductive case :=
    encrypted stream: items flagged true are preceded by the marker *)
 | CWireManual (items : list (bool * bytes)) (my tg : bytes) (runs : list wrun)
 (* PutClassAdWithOptions (private attributes included) + trailer, then the three receivers *)
-| CWireAd (opts : N) (attrs : list (bytes * bytes)) (my tg : bytes) (runs : list wrun).
+| CWireAd (opts : N) (attrs : list (bytes * bytes)) (my tg : bytes) (runs : list wrun)
+(* explicit frames (sealed, eom, plaintext payload) as a real stream in state (key, enc) carried them, ad +
+   trailer; what the four real receivers did on them: the three uncapped ones, and GetClassAdWithMaxSize for
+   every cap of the ranges (first cap, how many consecutive caps, succeeded and then read the trailer) *)
+| CFrames (key enc : bool) (frames : list (bool * bool * bytes)) (raw_ok get_ok skip_ok : bool)
+          (caps : list (Z * nat * bool)).
 
 Definition dig_eqb (a b : N * N * bytes * bytes) : bool :=
   let '(l1, s1, h1, t1) := a in let '(l2, s2, h2, t2) := b in
@@ -122,6 +127,12 @@ Definition check_wrun (send : sstate -> sstate) (r : wrun) : bool :=
   Bool.eqb (reads_trailer (get_ad (fun _ => true) t0)) (w_get_ok r) &&
   Bool.eqb (reads_trailer (skip_ad t0)) (w_skip_ok r).
 
+Fixpoint range_all (f : Z -> bool) (lo : Z) (n : nat) : bool :=
+  match n with
+  | O => true
+  | S k => f lo && range_all f (lo + 1)%Z k
+  end.
+
 Definition check_case (c : case) : bool :=
   match c with
   | CEnum alphabet prefix n obs_try obs_lex =>
@@ -154,6 +165,14 @@ Definition check_case (c : case) : bool :=
   | CWireAd opts attrs my tg runs =>
       forallb (check_wrun (fun st => put_ad {| c_opts := opts; c_whitelist := []; c_enc_attrs := []; c_peer := None |} st
                                         {| ad_attrs := attrs; ad_mytype := my; ad_targettype := tg |})) runs
+  | CFrames key enc frames raw_ok get_ok skip_ok caps =>
+      let t0 := treader_of key enc (map (fun f : bool * bool * bytes => let '(sealed, eom, d) := f in (sealed, (d, eom))) frames) in
+      Bool.eqb (reads_trailer (get_ad_raw t0)) raw_ok &&
+      Bool.eqb (reads_trailer (get_ad (fun _ => true) t0)) get_ok &&
+      Bool.eqb (reads_trailer (skip_ad t0)) skip_ok &&
+      forallb (fun r : Z * nat * bool =>
+                 let '(lo, n, ok) := r in
+                 range_all (fun cap => Bool.eqb (reads_trailer (get_ad_capped (fun _ => true) cap t0)) ok) lo n) caps
   end.
 
 Fixpoint mism (i : nat) (cs : list case) : list nat :=
